@@ -301,3 +301,71 @@ def config_delta_histories(have_linkify=False):
                     hists.append((name, [cases[a], cases[b], cases[b], cases[a]]))
                     hists.append((name, [cases[b], cases[a], cases[a], cases[b]]))
     return hists, uncovered
+
+
+# ------------------------------------------------------------------------------------------------ round 4
+
+def alias_project():
+    """A document WITH front matter (so it gets a per-document copy of the configuration) uses figure-md, which adds
+    html_image to enable_extensions in place for the nested parse; a later document has a raw <img>.  If the copy
+    shared its set with the global configuration, the probe would be rendered as an image when read by the same process."""
+    files = {"index.md": "# Index\n\n```{toctree}\na_fm\n" + "\n".join(f"m{i}" for i in range(8)) + "\nz_probe\n```\n",
+             "a_fm.md": "---\nmyst:\n  heading_anchors: 2\n---\n# A\n\n:::{figure-md} fig\n<img src=\"img.png\" alt=\"alt\" width=\"20px\">\n\nCaption\n:::\n",
+             "z_probe.md": "# Z\n\n<img src=\"img.png\" alt=\"raw or image\">\n\nafter\n"}
+    for i in range(8):
+        files[f"m{i}.md"] = f"# M{i}\n\n<img src=\"img.png\" alt=\"m{i}\">\n"
+    return {"files": files, "conf": "myst_enable_extensions = ['colon_fence', 'deflist']\n"}
+
+
+MD_TEXTS = [
+    "# A\n\n## B\n\n[](#a) [](#b)\n", "# A\n\n# A\n\n[](#a-1)\n", "# B\n\n### Deep\n\n[x](#deep)\n", "## a\n\ntext\n",
+    "(tgt)=\n# T\n\n[](tgt) [](#tgt)\n", "(tgt)=\npara\n\n[](#tgt)\n",
+    "a[^x] b[^y]\n\n[^y]: Y\n[^x]: X\n", "[^x]: again\n\n[^x] [^1]\n\n[^1]: one\n",
+    "{{ a }} and {{ b }}\n", "{{ b }}\n\n{{ c }}\n", "> ## quoted\n\n- ### item\n", "```{note}\n## inner\n```\n\n# A\n",
+    "<inv:#f> [x](inv:k#lab)\n", "$$\nx\n$$ (eq)\n\n$y$\n", "[r]: https://x.org\n\n[a][r] [r]\n", "[a][r]\n",
+]
+
+
+def md_reuse_histories(rng, n):
+    """histories at the level of ONE parser object: (config, [texts]) - documents that reuse slugs, targets, footnote labels,
+    substitutions, reference definitions."""
+    cfgs = [{"heading_anchors": 3, "enable_extensions": ["substitution", "dollarmath", "colon_fence"], "substitutions": {"a": "A", "b": "{{a}}", "c": "{{c}}"}},
+            {"heading_anchors": 1, "enable_extensions": []}, {"heading_anchors": 6, "heading_slug_func": "myst_parser.config.main._test_slug_func"}]
+    out = []
+    for k in range(n):
+        cfg = cfgs[k % len(cfgs)]
+        texts = [MD_TEXTS[rng.randrange(len(MD_TEXTS))] for _ in range(rng.randint(3, 6))]
+        if k % 2 == 0:
+            texts = texts + texts[:2]          # the same documents again
+        out.append({"kind": "md_reuse", "config": cfg, "texts": texts})
+    # every text after itself and after the first one
+    for cfg in cfgs[:2]:
+        for t in MD_TEXTS:
+            out.append({"kind": "md_reuse", "config": cfg, "texts": [MD_TEXTS[0], t, t]})
+    return out
+
+
+SETTINGS_DOC = "# T\n\na[^x] b[^y] c[^1]\n\n[^y]: Y\n[^x]: X\n[^1]: one\n\n## S\n\n[](#t) $x$ ~~s~~\n"
+
+
+def shared_settings_histories(fields):
+    """For every configuration field that the renderer copies onto document.settings (from the regenerated write
+    table) and every boolean value: publish calls sharing ONE settings object, where the front matter sets the field to
+    the non-default value (B) or not at all (A): A,B,B,A and B,A,A,B."""
+    import dataclasses as dc
+
+    from myst_parser.config.main import MdParserConfig
+    defaults = {f.name: (f.default if f.default is not dc.MISSING else None) for f in dc.fields(MdParserConfig)}
+    out = []
+    for field in fields:
+        d = defaults.get(field)
+        if not isinstance(d, bool):
+            continue
+        a = SETTINGS_DOC
+        b = f"---\nmyst:\n  {field}: {str(not d).lower()}\n---\n" + SETTINGS_DOC
+        for order, vals in ((("A", "B", "B", "A"), None), (("B", "A", "A", "B"), None)):
+            texts = [a if o == "A" else b for o in order]
+            labels = ["default" if o == "A" else str(not d) for o in order]
+            out.append({"kind": "shared_settings", "field": field, "labels": labels, "settings": {"myst_enable_extensions": ["dollarmath", "strikethrough"], "myst_heading_anchors": 2},
+                        "texts": texts})
+    return out
